@@ -43,6 +43,13 @@ func lookupWellKnown(ctx context.Context, serverNameType spec.ServerName, dial d
 	// Handle ending "/"
 	serverName = strings.TrimRight(serverName, "/")
 
+	// The name goes into a URL as it is: what is no server name (a userinfo
+	// part, a path, a query or a fragment behind the host) is refused here as
+	// ResolveServer refuses it, not sent to what net/url makes of it.
+	if _, _, valid := spec.ParseAndValidateServerName(spec.ServerName(serverName)); !valid {
+		return nil, fmt.Errorf("invalid server name %q", serverName)
+	}
+
 	wellKnownPath := "/.well-known/matrix/server"
 
 	// Request server's well-known record
